@@ -128,7 +128,7 @@ PROPS = {
                      ["update-child", "update-revision", "failed-update"],
                      "non-trivial = an ownership edit or another child update was attempted" + RULE_INTERLEAVE, ["claim", "apimodel"],
                      extra_streams=[rounds("interleave", 600, 6000, ["update-child", "update-revision", "failed-update"])]),
-    "C06": sync_prop(C06T + C06LT, ["update-child", "delete-child", "create-child"],
+    "C06": sync_prop(C06T + C06LT + [("Mc.Props.C06Switch", "Mc.C06.C06_switch_extracted"), ("Mc.Props.C06Switch", "Mc.C06.C06_modelSwitch_sound")], ["update-child", "delete-child", "create-child"],
                      "non-trivial = some child write was accepted", ["children"]),
     "C03": sync_prop(C03T, ["hook-sync", "hook-finalize"],
                      "non-trivial = a sync or finalize hook was called (its children map is compared with the owned set computed from the cache snapshot)" + RULE_INTERLEAVE, ["hook", "claim"],
